@@ -16,7 +16,7 @@ from .. import core, par
 MANIFEST = dict(
     text="Proof: Lean theorems split_join / split_join_atom / no_sep_is_atom / list_has_sep / escape_inert / escape_single_pass over a hand model of CellParser for all strings and all two-level lists (unbounded); tied to the code by an exhaustive differential run (all strings up to 6 (quick) / 8 (thorough) symbols over a 7-letter alphabet, all small nested lists, random long unicode strings) and by T1 constants regenerated from the source.",
     ref="§5 C08",
-    note="Trusts: Lean kernel (axioms ⊆ propext/Quot.sound/Classical.choice, audited each run), the differential harness and Driver JSON codec, CPython str.strip/replace as modelled, Jinja2 for the escape-filter oracle. U+0001 excluded by hypothesis (known finding F-C08-a).",
+    note="Trusts: Lean kernel (axioms ⊆ propext/Quot.sound/Classical.choice, audited each run), the differential harness and Driver JSON codec, CPython str.strip/replace and re.sub over a 2-character pattern as modelled, Jinja2 for the escape-filter oracle. Holds for every string since fix F-C08-a (single-pass unescape).",
     technique="Lean 4 proof (induction on strings; transparent-piece lemma) + exhaustive model/code correspondence",
 )
 
@@ -46,15 +46,12 @@ def has_unescaped_sep(s: str) -> bool:
 def wf(v) -> bool:
     """WFCell of Props/C08.lean, mirrored (lists non-empty, no list of length ≥ 2 ends in '')."""
     if isinstance(v, str):
-        return TMP not in v
+        return True
     if not v:
         return False
     for e in v:
-        if isinstance(e, str):
-            if TMP in e:
-                return False
-        else:
-            if not e or any(TMP in x for x in e):
+        if not isinstance(e, str):
+            if not e:
                 return False
             if len(e) >= 2 and e[-1] == "":
                 return False
